@@ -41,6 +41,9 @@
      growpartial growth swaps the bank but keeps the incremental path set: other ancestors are never rebuilt
      norebind    only new combiners get their inputs bound; surviving ones keep the old sources
      nozero1     the single-element-with-zero root combiner is not considered needed
+     nomincap    the zero form does not reserve the capacity-two tree its singleton root combiner lives in
+     nopub       the published root is re-pointed only by a full rebuild, not by an incremental one
+     addpending  a key is made a member when it is added, although it has no value yet (membership must follow validity)
      firstunset  (fixed-list fast path, ListScan) the scan stops at the first element without a value *)
 EXTENDS Integers, Sequences, FiniteSets, TLC
 
@@ -119,7 +122,7 @@ NodeInit(P, keys) ==
                bl |-> [p \in Pos |-> Unbound], br |-> [p \in Pos |-> Unbound], cv |-> [p \in Pos |-> NoVal],
                sch |-> {}, pub |-> Unbound, primed |-> FALSE, published |-> FALSE]
     \* with a zero the node is evaluated at start (the constant ticks): an empty tree of capacity two publishing the zero
-    IN IF P.hasZero THEN [n0 EXCEPT !.cap = 2, !.pub = <<"Z", 0>>, !.published = TRUE] ELSE n0
+    IN IF P.hasZero THEN [n0 EXCEPT !.cap = IF Fault = "nomincap" THEN 0 ELSE 2, !.pub = <<"Z", 0>>, !.published = TRUE] ELSE n0
 
 \* remove_leaf_at + record_removed_leaf_paths, in the order the collection reports the removed keys
 RECURSIVE DoRems(_, _, _)
@@ -150,75 +153,94 @@ SortedSeq(S, desc) == IF S = {} THEN <<>>
                       ELSE LET x == CHOOSE y \in S : \A z \in S : (IF desc THEN y >= z ELSE y <= z)
                            IN <<x>> \o SortedSeq(S \ {x}, desc)
 
-\* the evaluation loop; acc = [cv, sch, wrote]
+\* the evaluation loop; T = [ex, bl, br, cap, d2k]; acc = [cv, sch, wrote]
+EvalOne(P, T, p, acc, l, r) ==
+    LET writes == (P.lifted \/ p \in acc.sch) /\ l # NoVal /\ r # NoVal
+    IN [cv |-> IF writes THEN [acc.cv EXCEPT ![p] = F(P, l, r)] ELSE acc.cv,
+        sch |-> (acc.sch \ {p}) \cup (IF writes /\ ~P.lifted THEN {q \in T.ex : T.bl[q] = <<"N", p>> \/ T.br[q] = <<"N", p>>} ELSE {}),
+        wrote |-> IF writes THEN acc.wrote \cup {p} ELSE acc.wrote]
 RECURSIVE EvalLoop(_, _, _, _, _, _)
-EvalLoop(P, E, T, order, i, acc) ==      \* T = [ex, bl, br, cap, d2k]
+EvalLoop(P, E, T, order, i, acc) ==
     IF i > Len(order) THEN acc
-    ELSE LET p == order[i]
-             live == Len(T.d2k)
-             lref == IF P.lifted THEN RefOf(P, T.d2k, Resolve(T.cap, live, 2 * p + 1)) ELSE T.bl[p]
-             rref == IF P.lifted THEN RefOf(P, T.d2k, Resolve(T.cap, live, 2 * p + 2)) ELSE T.br[p]
-             l == Deref(P, E, T.ex, acc.cv, lref)
-             r == Deref(P, E, T.ex, acc.cv, rref)
-             runs == P.lifted \/ p \in acc.sch
-             writes == runs /\ l # NoVal /\ r # NoVal
-             subs == IF P.lifted THEN {} ELSE {q \in T.ex : T.bl[q] = <<"N", p>> \/ T.br[q] = <<"N", p>>}
-         IN EvalLoop(P, E, T, order, i + 1,
-                     [cv |-> IF writes THEN [acc.cv EXCEPT ![p] = F(P, l, r)] ELSE acc.cv,
-                      sch |-> (acc.sch \ {p}) \cup (IF writes THEN subs ELSE {}),
-                      wrote |-> IF writes THEN acc.wrote \cup {p} ELSE acc.wrote])
+    ELSE EvalLoop(P, E, T, order, i + 1,
+                  EvalOne(P, T, order[i], acc,
+                          Deref(P, E, T.ex, acc.cv, IF P.lifted THEN RefOf(P, T.d2k, Resolve(T.cap, Len(T.d2k), 2 * order[i] + 1)) ELSE T.bl[order[i]]),
+                          Deref(P, E, T.ex, acc.cv, IF P.lifted THEN RefOf(P, T.d2k, Resolve(T.cap, Len(T.d2k), 2 * order[i] + 2)) ELSE T.br[order[i]])))
 
-\* One evaluation of the reduce node in a cycle in which the collection ticked.  -> [n, res, tick, grew]
-NodeCycle(P, n, E) ==
-    LET a2       == DoAdds(DoRems([d2k |-> n.d2k, k2l |-> n.k2l, sl |-> {}], E.rems, 1), E.news, 1)
-        d2k1     == a2.d2k
-        live     == Len(d2k1)
-        rebuilt  == a2.sl # {} \/ ~n.published
-        fullS    == ~n.published \/ ~n.primed
-        newcap   == Max2(Max2(n.cap, IF P.hasZero THEN 2 ELSE 0), IF live > 0 THEN BitCeil(live) ELSE 0)
-        bank     == rebuilt /\ newcap # n.cap
-        cap1     == IF rebuilt THEN newcap ELSE n.cap
-        full2    == fullS \/ (bank /\ Fault # "growpartial")
-        spos     == IF ~rebuilt THEN {}
-                    ELSE IF full2 THEN 0..(Internals(cap1) - 1)
-                    ELSE UNION {Path(cap1, l) : l \in a2.sl}
-        ex0      == IF bank THEN {} ELSE n.ex
-        neededS  == {p \in spos : Needed(P, cap1, live, p)}
-        created  == neededS \ ex0
-        ex1      == (ex0 \ spos) \cup neededS
-        cv1      == [p \in Pos |-> IF p \in ex1 \ created THEN n.cv[p] ELSE NoVal]
-        oldbl    == [p \in Pos |-> IF bank \/ p \in created THEN Unbound ELSE n.bl[p]]
-        oldbr    == [p \in Pos |-> IF bank \/ p \in created THEN Unbound ELSE n.br[p]]
-        bpos     == IF P.lifted THEN {} ELSE IF Fault = "norebind" THEN created ELSE spos \cap ex1
-        bl1      == [p \in Pos |-> IF p \notin ex1 THEN Unbound
-                                   ELSE IF p \in bpos THEN RefOf(P, d2k1, Resolve(cap1, live, 2 * p + 1)) ELSE oldbl[p]]
-        br1      == [p \in Pos |-> IF p \notin ex1 THEN Unbound
-                                   ELSE IF p \in bpos THEN RefOf(P, d2k1, Resolve(cap1, live, 2 * p + 2)) ELSE oldbr[p]]
-        repoint  == {p \in bpos : bl1[p] # oldbl[p] \/ br1[p] # oldbr[p]}
-        rootAgg  == IF live = 0 THEN <<"E", 0>>
-                    ELSE IF P.hasZero /\ live = 1 /\ cap1 >= 2 THEN <<"N", 0>>
-                    ELSE Resolve(cap1, live, 0)
-        pub1     == IF rebuilt THEN RefOf(P, d2k1, rootAgg) ELSE n.pub
-        \* candidates of this evaluation
-        modLeaf  == {a2.k2l[k] - 1 : k \in {x \in E.mods : a2.k2l[x] # 0}}
-        tickPos  == IF Fault = "noticks" /\ rebuilt THEN {} ELSE UNION {Path(cap1, l) \cap ex1 : l \in modLeaf}
-        cand     == (spos \cap ex1) \cup tickPos
-        order    == SortedSeq(cand, Fault # "ascending")
-        \* a generic combiner's child graph is scheduled by: being new, a re-pointed input (sampled), a bound element ticking
-        sch1     == IF P.lifted THEN {}
-                    ELSE (((IF bank THEN {} ELSE n.sch) \cap ex1) \cup created \cup repoint
-                          \cup {p \in ex1 : \E k \in E.mods : bl1[p] = <<"K", k>> \/ br1[p] = <<"K", k>>})
-        fin      == EvalLoop(P, E, [ex |-> ex1, bl |-> bl1, br |-> br1, cap |-> cap1, d2k |-> d2k1], order, 1,
-                             [cv |-> cv1, sch |-> sch1, wrote |-> {}])
-        res      == Deref(P, E, ex1, fin.cv, pub1)
-        \* the forwarding output ticks when it is re-pointed to a source that has a value, or its source ticks
-        tick     == \/ (pub1 # n.pub /\ res # NoVal)
-                    \/ (pub1[1] = "K" /\ pub1[2] \in E.mods)
-                    \/ (pub1[1] = "N" /\ pub1[2] \in fin.wrote)
-    IN [n |-> [d2k |-> d2k1, k2l |-> a2.k2l, cap |-> cap1, ex |-> ex1, bl |-> bl1, br |-> br1, cv |-> fin.cv,
-               sch |-> fin.sch, pub |-> pub1, primed |-> TRUE, published |-> (n.published \/ rebuilt)],
-        res |-> res, tick |-> tick, grew |-> bank,
-        movedTicked |-> \E i \in 1..Len(E.rems) : n.k2l[E.rems[i]] # 0 /\ n.k2l[E.rems[i]] < Len(n.d2k) /\ n.d2k[Len(n.d2k)] \in E.mods]
+\* One evaluation of the reduce node in a cycle in which the collection ticked.  -> [n, res, tick, grew, movedTicked]
+\* (staged through operator PARAMETERS: TLC evaluates a parameter once, a LET definition at every use)
+
+\* reduce_reconcile: the leaf state after the delta; sl = structural leaves
+Reconcile(n, E) == DoAdds(DoRems([d2k |-> n.d2k, k2l |-> n.k2l, sl |-> {}], E.rems, 1), E.news, 1)
+
+\* rebuild_structure, the capacity decision and the positions it will visit
+Geometry(P, n, a) ==
+    LET live    == Len(a.d2k)
+        rebuilt == a.sl # {} \/ ~n.published
+        newcap  == Max2(Max2(n.cap, IF P.hasZero /\ Fault # "nomincap" THEN 2 ELSE 0), IF live > 0 THEN BitCeil(live) ELSE 0)
+        bank    == rebuilt /\ newcap # n.cap
+        cap1    == IF rebuilt THEN newcap ELSE n.cap
+        full2   == ~n.published \/ ~n.primed \/ (bank /\ Fault # "growpartial")
+    IN [rebuilt |-> rebuilt, bank |-> bank, cap |-> cap1, live |-> live, full |-> full2,
+        spos |-> IF ~rebuilt THEN {}
+                 ELSE IF full2 THEN 0..(Internals(cap1) - 1)
+                 ELSE UNION {Path(cap1, l) : l \in a.sl}]
+
+\* phase 1: create where needed, retire where not (growth starts from an empty bank)
+Shape(P, n, g) ==
+    LET ex0     == IF g.bank THEN {} ELSE n.ex
+        neededS == {p \in g.spos : Needed(P, g.cap, g.live, p)}
+    IN [ex |-> (ex0 \ g.spos) \cup neededS, created |-> neededS \ ex0]
+
+\* phase 2 + root publication: inputs of the combiners at structural positions, the published source
+Bind(P, n, a, g, s) ==
+    LET bpos  == IF P.lifted THEN {} ELSE IF Fault = "norebind" THEN s.created ELSE g.spos \cap s.ex
+        oldbl == [p \in Pos |-> IF g.bank \/ p \in s.created THEN Unbound ELSE n.bl[p]]
+        oldbr == [p \in Pos |-> IF g.bank \/ p \in s.created THEN Unbound ELSE n.br[p]]
+        newl(p) == IF p \notin s.ex THEN Unbound
+                   ELSE IF p \in bpos THEN RefOf(P, a.d2k, Resolve(g.cap, g.live, 2 * p + 1)) ELSE oldbl[p]
+        newr(p) == IF p \notin s.ex THEN Unbound
+                   ELSE IF p \in bpos THEN RefOf(P, a.d2k, Resolve(g.cap, g.live, 2 * p + 2)) ELSE oldbr[p]
+        rootAgg == IF g.live = 0 THEN <<"E", 0>>
+                   ELSE IF P.hasZero /\ g.live = 1 /\ g.cap >= 2 THEN <<"N", 0>>
+                   ELSE Resolve(g.cap, g.live, 0)
+    IN [bl |-> [p \in Pos |-> newl(p)], br |-> [p \in Pos |-> newr(p)],
+        repoint |-> {p \in bpos : newl(p) # oldbl[p] \/ newr(p) # oldbr[p]},
+        pub |-> IF g.rebuilt /\ (g.full \/ Fault # "nopub") THEN RefOf(P, a.d2k, rootAgg) ELSE n.pub]
+
+\* prepare_reduce_evaluation_positions: structural positions + ancestors of every leaf whose value ticked
+Candidates(a, g, s, E) ==
+    LET modLeaf == {a.k2l[k] - 1 : k \in {x \in E.mods : a.k2l[x] # 0}}
+        tickPos == IF Fault = "noticks" /\ g.rebuilt THEN {} ELSE UNION {Path(g.cap, l) \cap s.ex : l \in modLeaf}
+    IN SortedSeq((g.spos \cap s.ex) \cup tickPos, Fault # "ascending")
+
+\* a generic combiner's child graph is scheduled by: being new, a re-pointed input (sampled), a bound element ticking
+Scheduled(P, n, g, s, b, E) ==
+    IF P.lifted THEN {}
+    ELSE ((IF g.bank THEN {} ELSE n.sch) \cap s.ex) \cup s.created \cup b.repoint
+         \cup {p \in s.ex : \E k \in E.mods : b.bl[p] = <<"K", k>> \/ b.br[p] = <<"K", k>>}
+
+Outcome(P, n, E, a, g, s, b, fin, res) ==
+    [n |-> [d2k |-> a.d2k, k2l |-> a.k2l, cap |-> g.cap, ex |-> s.ex, bl |-> b.bl, br |-> b.br, cv |-> fin.cv,
+            sch |-> fin.sch, pub |-> b.pub, primed |-> TRUE, published |-> (n.published \/ g.rebuilt)],
+     res |-> res,
+     \* the forwarding output ticks when it is re-pointed to a source that has a value, or its source ticks
+     tick |-> \/ (b.pub # n.pub /\ res # NoVal)
+              \/ (b.pub[1] = "K" /\ b.pub[2] \in E.mods)
+              \/ (b.pub[1] = "N" /\ b.pub[2] \in fin.wrote),
+     grew |-> g.bank,
+     movedTicked |-> \E i \in 1..Len(E.rems) : n.k2l[E.rems[i]] # 0 /\ n.k2l[E.rems[i]] < Len(n.d2k) /\ n.d2k[Len(n.d2k)] \in E.mods]
+
+Cycle6(P, n, E, a, g, s, b, fin) == Outcome(P, n, E, a, g, s, b, fin, Deref(P, E, s.ex, fin.cv, b.pub))
+Cycle5(P, n, E, a, g, s, b) ==
+    Cycle6(P, n, E, a, g, s, b,
+           EvalLoop(P, E, [ex |-> s.ex, bl |-> b.bl, br |-> b.br, cap |-> g.cap, d2k |-> a.d2k], Candidates(a, g, s, E), 1,
+                    [cv |-> [p \in Pos |-> IF p \in s.ex \ s.created THEN n.cv[p] ELSE NoVal],
+                     sch |-> Scheduled(P, n, g, s, b, E), wrote |-> {}]))
+Cycle4(P, n, E, a, g, s) == Cycle5(P, n, E, a, g, s, Bind(P, n, a, g, s))
+Cycle3(P, n, E, a, g) == Cycle4(P, n, E, a, g, Shape(P, n, g))
+Cycle2(P, n, E, a) == Cycle3(P, n, E, a, Geometry(P, n, a))
+NodeCycle(P, n, E) == Cycle2(P, n, E, Reconcile(n, E))
 
 Result(P, n, E) == Deref(P, E, n.ex, n.cv, n.pub)
 
